@@ -445,19 +445,28 @@ Definition wit_long_s : bytes :=   (* {"query":"{a}","variable<U+017F>":{"x":nul
 Definition wit_surrogates : bytes :=   (* "\ud800𐀀" *)
   [34; 92;117;100;56;48;48; 92;117;100;56;48;48; 92;117;100;99;48;48; 34].
 
-Theorem same_text_other_operation :
-  (exists text o1 o2 x id,
-     decode fixed (parse_text StdJson (fun _ => None)) (parse_text Jsoniter (fun _ => None))
-            (WHttp {| e_method := m_post; e_media := mt_json; e_url := []; e_body := text |}) = Some (o1, x) /\
-     decode fixed (parse_text StdJson (fun _ => None)) (parse_text Jsoniter (fun _ => None))
-            (WWs GraphqlWS {| f_type := t_start; f_id := id; f_payload := Some text |}) = Some (o2, None) /\
-     o_vars o1 <> o_vars o2) /\
+(** what the pinned tree did with socket payloads: jsoniter ([parse_text Jsoniter] +
+    [decode_struct Jsoniter]) against encoding/json on HTTP — the same bytes, two operations *)
+Definition payload_op (fl : flavour) (text : bytes) : option op :=
+  match parse_text fl (fun _ => None) text with
+  | PTree j => option_map body_op (decode_struct fl false j)
+  | _ => None
+  end.
+
+Definition wit_null_after : bytes :=   (* {"query":"{a}","query":null} *)
+  [123;34;113;117;101;114;121;34;58;34;123;97;125;34;44;34;113;117;101;114;121;34;58;110;117;108;108;125].
+
+Theorem ws_payload_library_refuted_before_fix :
+  (exists text o1 o2, payload_op StdJson text = Some o1 /\ payload_op Jsoniter text = Some o2 /\ o_vars o1 <> o_vars o2) /\
+  (exists text o1 o2, payload_op StdJson text = Some o1 /\ payload_op Jsoniter text = Some o2 /\ o_query o1 <> o_query o2) /\
   (exists text s1 s2,
      parse_text StdJson (fun _ => None) text = PTree (JStr s1) /\
      parse_text Jsoniter (fun _ => None) text = PTree (JStr s2) /\ s1 <> s2).
 Proof.
-  split.
-  - exists wit_long_s. do 3 eexists. exists [49].
+  split; [|split].
+  - exists wit_long_s. do 2 eexists.
+    split; [vm_compute; reflexivity|]. split; [vm_compute; reflexivity|]. discriminate.
+  - exists wit_null_after. do 2 eexists.
     split; [vm_compute; reflexivity|]. split; [vm_compute; reflexivity|]. discriminate.
   - exists wit_surrogates. do 2 eexists.
     split; [vm_compute; reflexivity|]. split; [vm_compute; reflexivity|]. discriminate.
